@@ -868,12 +868,12 @@ def _run(ctx: Any) -> None:
         if not g["shape"]:
             ctx.note("shape_facts_hold", False)
     bound = 3 if thorough else 2
-    per = ctx.budget(25, 500)  # bounded-preemption schedules (fewest preemptions first) ...
-    rnd = ctx.budget(35, 700)  # ... and PCT / random-walk schedules (mid-call preemptions) per configuration
+    per = ctx.budget(25, 120)  # bounded-preemption schedules (fewest preemptions first) ...
+    rnd = ctx.budget(35, 180)  # ... and PCT / random-walk schedules (mid-call preemptions) per configuration
     cfgs: list[tuple[dict[str, Any], int, int, int]] = []
     for c in CORPUS:
         cfgs.append((dict(c, src="corpus"), per, bound, rnd))
-    for i in range(ctx.budget(10, 70)):
+    for i in range(ctx.budget(10, 50)):
         c = gen_cfg(rng, 2 if i % 3 else 3)
         if i % 3 == 1:
             c["lines"] = True
